@@ -2,7 +2,7 @@
    Only ExtrOcamlBasic is used: bool, option, unit, list, prod, sumbool, sumor map to the OCaml
    types and andb / orb are inlined; nat, positive, Z, Q, ascii, string stay the extracted
    inductive types.  No Extract Constant / Extract Inductive of our own. *)
-From GX Require Import Base Expr Topo Ode Target Sem Codegen Load Valid Run.
+From GX Require Import Base Expr Topo Ode Target Sem Codegen Load Valid Run Schemes.
 Require Extraction.
 Require Import ExtrOcamlBasic.
 Extraction Language OCaml.
@@ -14,4 +14,5 @@ Extraction "../build/gx.ml"
   exec exec_env sem_eval sem_eval_expr
   fill_body first_bad valid_fun valid_rhs valid_named valid_euler states_clean reserved_free
   reserved init_states init_params
-  is_topological expr_eqb.
+  is_topological expr_eqb
+  D extend_lin is_zero_expr predict_mode valid_scheme lin_name slot_mode.
